@@ -79,6 +79,8 @@ run_directed = directed.run
 
 def cases(tier, rng):
     thorough = tier == "thorough"
+    for c in directed.one_function_in_two_roles_cases():
+        yield "directed-one-function-in-two-roles", c
     for c in directed.members_from_invariantless_bases_cases():
         yield "directed-members-from-invariantless-bases", c
     for c in directed.keyword_named_self_cases():
